@@ -61,6 +61,7 @@ func main() {
 		Assumptions: []string{
 			"rotation and impact jobs are gated while replies are judged, so the snapshot and the reply describe the same state",
 			"the client's report loop is parked at its loop head (send.loop hook) so that no background sync round interleaves with the judged calls",
+			"overlapping rounds are produced by holding one round at the instrumented point sync.beforeAdopt while another one runs to completion",
 			"a flipped bit in a signature or signed region verifying anyway has negligible probability (secp256k1/Keccak-256 via go-ethereum, trusted base)",
 			"freshness is judged with a 10 minute margin on either side of the 24 h bound; the exact bound is not decided here",
 			"bit flips are exhaustive only in the thorough tier and only for replies up to 2000 bytes; otherwise boundaries plus a random sample",
@@ -78,7 +79,7 @@ func main() {
 		},
 		Post: func(c *ev.Check, outs []*run.Outcome) {
 			for _, k := range []string{"agree.raw", "agree.client", "agree.bits_set", "agree.banned_slots", "agree.servers_in_reply", "agree.migration_in_reply",
-				"refusal.raw", "refusal.client", "agree.burst", "agree.client_relayed", "rotation.injected_at.sync.ready", "rotation.injected_at.sync.afterCopy", "rotation.under_load", "rotation.reply_is_state_before", "rotation.reply_is_state_after", "tamper.bitflip", "tamper.truncate", "tamper.extend_adjusted", "tamper.resign_otherkey",
+				"refusal.raw", "refusal.client", "agree.burst", "agree.client_relayed", "stale_round.judged", "stale_round.unchanged", "rotation.injected_at.sync.ready", "rotation.injected_at.sync.afterCopy", "rotation.under_load", "rotation.reply_is_state_before", "rotation.reply_is_state_after", "tamper.bitflip", "tamper.truncate", "tamper.extend_adjusted", "tamper.resign_otherkey",
 				"accepted.time_within", "rejected.time_outside", "rejected.devkey", "rejected.entry_sig", "rejected.mig_outer", "rejected.mig_inner",
 				"fullround.rejected_unchanged", "fullround.accepted", "states.offset_0", "states.offset_2016", "states.offset_4032"} {
 				c.Require(k, 1)
@@ -1656,6 +1657,111 @@ func (s *st) newRoundClient(dir string, n int) (*client.Client, string, error) {
 	return c, d, err
 }
 
+// staleRound: two overlapping sync rounds of one device. Round A gets a reply
+// that is fine for the GCA the device has when A starts (a plain list, or an
+// order, signed by that GCA) and is held just before it adopts anything
+// (instrumented point sync.beforeAdopt). Round B meanwhile follows a genuine
+// order to a new GCA. Then A goes on. Its reply carries no signature of the GCA
+// the device has now: nothing of it may reach the map, the ban flags or the
+// files.
+func (s *st) staleRound(dir string, offset uint32, asOrder bool) {
+	c, d, err := s.newRoundClient(dir, 2)
+	if err != nil {
+		s.r.Inconc("client start: " + err.Error())
+		return
+	}
+	defer os.RemoveAll(d)
+	defer closeClient(c)
+	G3 := refenc.GenKey(s.rng)
+	relay := refenc.AuthServer{Pub: s.Key.Pub, Location: "127.0.0.1", TCP: s.m.Port, UDP: s.UDP}
+	intruder := s.entry(s.GCA) // a server only the former GCA vouches for
+	class := "stale_round.list_by_former_gca"
+	replyA := rebuilt(s.Key.Priv, func(r *refenc.SyncReply) {
+		ban := relay
+		ban.Banned = true
+		r.NewGCA, r.NewID, r.MigSig = [32]byte{}, 0, [64]byte{}
+		r.Servers = []refenc.AuthServer{intruder, ban.Signed(s.GCA.Priv)}
+	})
+	if asOrder {
+		class = "stale_round.order_by_former_gca"
+		replyA = rebuilt(s.Key.Priv, func(r *refenc.SyncReply) {
+			r.NewGCA, r.NewID = G3.Pub, 31337
+			r.Servers = []refenc.AuthServer{relay.Signed(G3.Priv)}
+			r.MigSig = refenc.Migration{Equipment: r.DevKey, NewGCA: r.NewGCA, NewID: r.NewID, Servers: r.Servers}.Signed(s.GCA.Priv).Sig
+		})
+	}
+	newID := uint32(4242 + s.rng.Intn(1000))
+	replyB := rebuilt(s.Key.Priv, func(r *refenc.SyncReply) {
+		r.NewGCA, r.NewID = s.G2.Pub, newID
+		r.Servers = []refenc.AuthServer{relay.Signed(s.G2.Priv), s.entry(s.G2)}
+		r.MigSig = refenc.Migration{Equipment: r.DevKey, NewGCA: r.NewGCA, NewID: r.NewID, Servers: r.Servers}.Signed(s.GCA.Priv).Sig
+	})
+	arrived := make(chan struct{}, 1)
+	release := make(chan struct{})
+	var first atomic.Bool
+	client.VerifSetHook("sync.beforeAdopt", func(x *client.Client) {
+		if x == c && first.CompareAndSwap(false, true) {
+			arrived <- struct{}{}
+			<-release
+		}
+	})
+	defer client.VerifSetHook("sync.beforeAdopt", func(*client.Client) {})
+	s.m.set(replyA)
+	doneA := make(chan bool, 1)
+	run.Op("stale round: A starts (%s)", class)
+	go func() { doneA <- c.VerifSyncOnce(offset) }()
+	select {
+	case <-arrived:
+	case <-doneA:
+		close(release)
+		s.r.Count("stale_round.a_not_held", 1) // its reply did not get as far as adoption (slow machine): decides nothing
+		return
+	case <-time.After(40 * time.Second):
+		close(release)
+		s.r.Inconc("stale round: round A neither reached adoption nor ended within 40 s")
+		return
+	}
+	s.m.set(replyB)
+	run.Op("stale round: B follows a genuine order")
+	retB := c.VerifSyncOnce(offset)
+	afterB := viewOf(c)
+	filesB, errB := viewOfFiles(d)
+	close(release)
+	var retA bool
+	select {
+	case retA = <-doneA:
+	case <-time.After(40 * time.Second):
+		s.r.Inconc("stale round: round A did not end within 40 s after its release")
+		return
+	}
+	s.m.set(nil)
+	s.r.Eval(1)
+	if afterB.GCA != s.G2.Pub || afterB.ID != newID || errB != nil {
+		s.r.Count("stale_round.b_did_not_migrate", 1) // the premise is missing (B's reply lost on a slow machine)
+		return
+	}
+	s.r.Count("stale_round.judged", 1)
+	s.r.Nontrivial(fmt.Sprintf("%s/%s", s.label, class))
+	after := viewOf(c)
+	files, err := viewOfFiles(d)
+	rp := s.replay(map[string]interface{}{"class": class, "round_a_returned": retA, "round_b_returned": retB, "former_gca": hex.EncodeToString(s.GCA.Pub[:]), "current_gca": hex.EncodeToString(s.G2.Pub[:])})
+	switch {
+	case err != nil:
+		s.r.Violationf("rejected-reply-damaged-files:"+class, rp, "client files unreadable after the stale round: %v", err)
+	case afterB.diff(after) != "":
+		s.r.Violationf("rejected-reply-changed-state:"+class, rp, "a round that started under the former GCA was completed after the device had migrated; its reply carries no signature of the current GCA, yet the client's state changed (round returned %v): %s", retA, afterB.diff(after))
+	case filesB.diff(files) != "":
+		s.r.Violationf("rejected-reply-changed-files:"+class, rp, "the stale round changed the client's files: %s", filesB.diff(files))
+	case after.diff(files) != "":
+		s.r.Violationf("genuine-round-state-differs-from-files", rp, "after the two rounds state and files differ: %s", after.diff(files))
+	default:
+		s.r.Count("stale_round.unchanged", 1)
+		if retA {
+			s.r.Count("stale_round.returned_true_without_change", 1)
+		}
+	}
+}
+
 func (s *st) fullRounds(dir string, sample []variant, offset uint32) {
 	c, d, err := s.newRoundClient(dir, 0)
 	if err != nil {
@@ -1977,6 +2083,9 @@ func child(b run.Batch, r *ev.Result) {
 	r.Sample(map[string]interface{}{"state": s.label, "reply_len": len(genuine), "cases": len(vs), "genuine": hx(genuine[:80])})
 	if slice == 0 {
 		s.fullRounds(b.Dir, sample, target)
+		if r.NumViolations() == 0 {
+			s.staleRound(b.Dir, target, sidx%2 == 1)
+		}
 		if r.NumViolations() == 0 {
 			s.rotationsDuringRequests()
 		}
